@@ -281,6 +281,8 @@ func confirmC09(b *Build, c *spec.DiskCase, kind string) (bool, string) {
 		return true, "CPU time above 10 s: " + desc
 	case r.PeakLive > B:
 		return true, "live heap above 512 MiB + 64*S: " + desc
+	case kind == "budget-heap" && r.PeakHeap > B+B/2 && r.HeapSys > B+B/2:
+		return true, fmt.Sprintf("heap in use above 1.5 x (512 MiB + 64*S) although the sampler caught no live sample (peak HeapAlloc %d, heap obtained from the OS %d): %s", r.PeakHeap, r.HeapSys, desc)
 	case kind == "budget-alloc" && r.HeapSys > B && r.TotalAlloc > B:
 		return true, fmt.Sprintf("a single allocation request above 512 MiB + 64*S was made and succeeded (heap obtained from the OS %d, allocated during the call %d): %s", r.HeapSys, r.TotalAlloc, desc)
 	}
@@ -492,6 +494,19 @@ func checkDisk(o checkOpts, prop string) int {
 			// two consecutive confirmations, serialised so that load does not distort them;
 			// further examples of the same signature are tried until one confirms
 			examples := append([]spec.DiskCase{f.Case}, f.Alt...)
+			if f.Class == "budget-heap" && len(f.Alt) == len(f.AltVal) {
+				// largest allocation first
+				idx := make([]int, len(f.Alt))
+				for i := range idx {
+					idx[i] = i
+				}
+				sort.Slice(idx, func(x, y int) bool { return f.AltVal[idx[x]] > f.AltVal[idx[y]] })
+				examples = examples[:0]
+				for _, i := range idx {
+					examples = append(examples, f.Alt[i])
+				}
+				examples = append(examples, f.Case)
+			}
 			if len(examples) > 12 {
 				examples = examples[:12]
 			}
